@@ -42,6 +42,10 @@ SeqSet(s)      == { s[i] : i \in 1..Len(s) }
 InSeq(x, s)    == \E i \in 1..Len(s) : s[i] = x
 
 ---------------------------------------------------------------------------
+(* Meta.index_together, where a model record carries one *)
+It(ms) == IF "it" \in DOMAIN ms THEN ms.it ELSE <<>>
+WithIt(ms, v) == [x \in (DOMAIN ms) \cup {"it"} |-> IF x = "it" THEN v ELSE ms[x]]
+
 (* Field kinds and the database type Django derives from them *)
 
 TruthyStr(v) == v # None /\ v # ""      \* Python truthiness of an optional string
@@ -156,11 +160,14 @@ Sim(mu, sig) ==
                                 THEN Put(old.attrs, "db_column", mu.dbcol)
                                 ELSE Drop(old.attrs, "db_column"))
                  ren(t) == [i \in 1..Len(t) |-> IF t[i] = mu.of THEN mu.nf ELSE t[i]]
-             IN Ok([sig EXCEPT ![mu.m].fields =
-                       Put(Drop(@, mu.of), mu.nf, [old EXCEPT !.attrs = attrs]),
-                    \* unique_together / Meta.indexes follow the renamed field
-                    ![mu.m].ut = [i \in 1..Len(@) |-> ren(@[i])],
-                    ![mu.m].idx = [i \in 1..Len(@) |-> [@[i] EXCEPT !.fields = ren(@)]]])
+                 s1 == [sig EXCEPT ![mu.m].fields =
+                           Put(Drop(@, mu.of), mu.nf, [old EXCEPT !.attrs = attrs]),
+                        \* unique_together / index_together / Meta.indexes follow the renamed field
+                        ![mu.m].ut = [i \in 1..Len(@) |-> ren(@[i])],
+                        ![mu.m].idx = [i \in 1..Len(@) |-> [@[i] EXCEPT !.fields = ren(@)]]]
+             IN Ok(IF "it" \in DOMAIN s1[mu.m]
+                   THEN [s1 EXCEPT ![mu.m].it = [i \in 1..Len(@) |-> ren(@[i])]]
+                   ELSE s1)
     [] mu.k = "Meta" ->
         IF mu.m \notin DOMAIN sig THEN Fail(sig)
         ELSE IF mu.prop = "unique_together"
@@ -169,6 +176,8 @@ Sim(mu, sig) ==
              THEN Ok([sig EXCEPT ![mu.m].idx = mu.ival])
         ELSE IF mu.prop = "constraints"
              THEN Ok([sig EXCEPT ![mu.m].cons = mu.ival])
+        ELSE IF mu.prop = "index_together"
+             THEN Ok([sig EXCEPT ![mu.m] = WithIt(@, mu.val)])
         ELSE Fail(sig)
     [] mu.k = "RenM" ->
         IF mu.om \notin DOMAIN sig THEN Fail(sig)
@@ -207,6 +216,7 @@ ModelEq(a, b) == /\ a.table = b.table
                  /\ SeqSet(a.idx) = SeqSet(b.idx)
                  /\ SeqSet(a.cons) = SeqSet(b.cons)
                  /\ Comment(a) = Comment(b)
+                 /\ SeqSet(It(a)) = SeqSet(It(b))
                  /\ ~UTChanged(b, a)
 
 SigEq(a, b) == /\ DOMAIN a = DOMAIN b
@@ -227,6 +237,7 @@ ModelDiffEmpty(a, b) ==
     /\ a.idx = b.idx
     /\ a.cons = b.cons
     /\ Comment(a) = Comment(b)
+    /\ It(a) = It(b)
 DiffEmpty(a, b) == /\ DOMAIN a = DOMAIN b
                    /\ \A mn \in DOMAIN a : ModelDiffEmpty(a[mn], b[mn])
 
